@@ -35,14 +35,14 @@ ASSUMPTIONS = [
 FLOORS = {
     "quick": {"exact-position-checks": 40000, "suffix-groups": 40000, "crlf-cases": 8000,
               "multibyte-before-x": 8000, "mut-position-checks": 8000,
-              "debug-parser-runs": 40000},
+              "debug-parser-runs": 40000, "bases-with-a-bare-CR": 300},
     "thorough": {"exact-position-checks": 500000, "suffix-groups": 500000,
                  "crlf-cases": 100000, "multibyte-before-x": 100000,
                  "mut-position-checks": 50000, "debug-parser-runs": 500000},
 }
 SHARD_TIMEOUT = {"quick": 600, "thorough": 3000}
 
-SEPS = [b" ", b" ", b"\n", b"\n    ", b"\t", b"  ", b" /* \xc3\xa9 c */ ",
+SEPS = [b" ", b" ", b"\n", b"\n    ", b"\t", b"  ", b" /* \xc3\xa9 c */ ", b" /* cr\rinside */ ",
         b"\n# h\xc3\xa9h\xc3\xa9 \xe2\x82\xac comment ; { \"\n", b"\n\n", b" /**/\n"]
 LEXICAL = [b"&", b"%", b"$x", b"!", b"=", b"'q'", b"\\", b"*", b"@", b"-1", b"<",
            b"\xc3\xa9", b"~~~", b".", b"+", b"?"]
@@ -71,7 +71,8 @@ def layout(toks, rng, crlf):
         out += b"# \xc3\xa9\xc3\xa9 leading \xe2\x82\xac\n"
     elif r < 0.6:
         # the script starts with line breaks / blanks (offset 0 is a line break)
-        out += rng.choice([b"\n", b"\n\n", b" \n", b"\t\n \n", b"\n#c\n", b"/**/\n"])
+        out += rng.choice([b"\n", b"\n\n", b" \n", b"\t\n \n", b"\n#c\n", b"/**/\n",
+                           b"/* first\rline */ ", b"/* a\rb\rc */"])
     for i, t in enumerate(toks):
         if i:
             p = toks[i - 1]
@@ -321,6 +322,14 @@ def run_offenders(shard, res: Result):
         crlf = rng.random() < 0.3
         V = layout(stoks, rng, crlf)
         j = rsieve.judge(V)
+        if j.v == rsieve.UNSPEC and set(j.unspec) == {"lone-CR"} and j.toks:
+            # a bare CR (here: inside a comment) is the only thing the judge leaves undecided;
+            # it is no line break for the position arithmetic, so such bases are used too
+            j2 = rsieve.judge_tokens(j.toks)
+            if j2.v == rsieve.ACCEPT:
+                j2.toks = j.toks
+                j = j2
+                res.count("bases-with-a-bare-CR")
         if j.v != rsieve.ACCEPT:
             res.count("base-skipped:judge-%s" % j.v)
             continue
